@@ -20,6 +20,7 @@ import (
 	"math/rand"
 	"net"
 	"runtime"
+	"sort"
 	"strconv"
 	"sync"
 	"sync/atomic"
@@ -89,6 +90,7 @@ type tagConn struct {
 	owner   atomic.Bool
 	mu      sync.Mutex
 	ops     []op
+	dls     []dl
 	closeCh chan struct{}
 	once    sync.Once
 }
@@ -126,6 +128,26 @@ func (t *tagConn) Close() error {
 	t.once.Do(func() { close(t.closeCh) })
 	return err
 }
+
+// dl is one Set*Deadline call seen on the connection (netx.Scripted itself ignores deadlines).
+type dl struct {
+	Kind string // R, W, RW
+	Seq  int64
+	Goid uint64
+	Zero bool
+}
+
+func (t *tagConn) logDeadline(kind string, tm time.Time) {
+	s := t.seq.Add(1)
+	g := goid()
+	t.mu.Lock()
+	t.dls = append(t.dls, dl{kind, s, g, tm.IsZero()})
+	t.mu.Unlock()
+}
+
+func (t *tagConn) SetDeadline(tm time.Time) error      { t.logDeadline("RW", tm); return nil }
+func (t *tagConn) SetReadDeadline(tm time.Time) error  { t.logDeadline("R", tm); return nil }
+func (t *tagConn) SetWriteDeadline(tm time.Time) error { t.logDeadline("W", tm); return nil }
 
 // ownedConn is what the hijack handler uses: it announces each call.
 type ownedConn struct {
@@ -172,6 +194,10 @@ type plan struct {
 	KeepTail     bool   `json:"keep_tail"` // Keep mode: the handler reads only part and returns; the rest is read afterwards through the kept conn
 	Partial      int    `json:"partial"`
 	TailSeed     int64  `json:"tail_seed"`
+	SrvRead      bool   `json:"server_read_timeout"`  // Server.ReadTimeout non-zero
+	SrvWrite     bool   `json:"server_write_timeout"` // Server.WriteTimeout non-zero
+	SrvIdle      bool   `json:"server_idle_timeout"`  // Server.IdleTimeout non-zero
+	HdrRecv      int    `json:"header_received"`      // 0: no HeaderReceived; 1: per-request ReadTimeout; 2: WriteTimeout; 3: both; 4: empty RequestConfig
 }
 
 func genTail(rnd *rand.Rand, kind string, n int) []byte {
@@ -249,6 +275,10 @@ func genPlan(rnd *rand.Rand, ci int) plan {
 		p.ReadMax = 64 // (tens of thousands of tiny reads only grow the event logs)
 	}
 	p.HandlerClose = rnd.Intn(3) == 0
+	p.SrvRead, p.SrvWrite, p.SrvIdle = rnd.Intn(3) == 0, rnd.Intn(3) == 0, rnd.Intn(3) == 0
+	if rnd.Intn(2) == 0 {
+		p.HdrRecv = 1 + rnd.Intn(4)
+	}
 	if p.Keep && !p.HandlerClose && rnd.Intn(2) == 0 {
 		p.KeepTail = true
 		p.Partial = rnd.Intn(p.TailLen + 1)
@@ -420,6 +450,30 @@ func runCase(p plan, rnd *rand.Rand) (probs []problem, inc string, info map[stri
 	}
 	srv := &fasthttp.Server{Handler: handler, ReduceMemoryUsage: p.RMU, KeepHijackedConns: p.Keep,
 		ReadBufferSize: p.ReadBuf, WriteBufferSize: p.WriteBuf, Logger: nopLogger{}}
+	// Timeouts only arm deadlines here (the scripted conn never blocks); what matters is which
+	// deadlines are still armed when the connection changes hands.
+	const long = time.Hour
+	if p.SrvRead {
+		srv.ReadTimeout = long
+	}
+	if p.SrvWrite {
+		srv.WriteTimeout = long
+	}
+	if p.SrvIdle {
+		srv.IdleTimeout = long
+	}
+	if p.HdrRecv > 0 {
+		srv.HeaderReceived = func(*fasthttp.RequestHeader) fasthttp.RequestConfig {
+			var rc fasthttp.RequestConfig
+			if p.HdrRecv == 1 || p.HdrRecv == 3 {
+				rc.ReadTimeout = long
+			}
+			if p.HdrRecv == 2 || p.HdrRecv == 3 {
+				rc.WriteTimeout = long
+			}
+			return rc
+		}
+	}
 
 	serverGoid := goid()
 	var serveErr error
@@ -665,6 +719,37 @@ func runCase(p plan, rnd *rand.Rand) (probs []problem, inc string, info map[stri
 		add("io-after-close", fmt.Sprintf("%d reads / %d writes after the conn was closed", rd, wr))
 	}
 
+	// 3b. every deadline the server armed for HTTP is cleared when the handler starts, and none is set afterwards
+	tc.mu.Lock()
+	dls := append([]dl(nil), tc.dls...)
+	tc.mu.Unlock()
+	sort.Slice(dls, func(i, j int) bool { return dls[i].Seq < dls[j].Seq })
+	readArmed, writeArmed, everArmed := false, false, false
+	for _, d := range dls {
+		if d.Seq > hs.startSeq {
+			add("deadline-set-after-handover", fmt.Sprintf("Set%sDeadline(zero=%v) (seq %d, goroutine %d) after the hijack handler started (seq %d); the handler itself sets none", d.Kind, d.Zero, d.Seq, d.Goid, hs.startSeq))
+			continue
+		}
+		if !d.Zero {
+			everArmed = true
+		}
+		if d.Kind == "R" || d.Kind == "RW" {
+			readArmed = !d.Zero
+		}
+		if d.Kind == "W" || d.Kind == "RW" {
+			writeArmed = !d.Zero
+		}
+	}
+	cfg := fmt.Sprintf("ReadTimeout>0=%v WriteTimeout>0=%v IdleTimeout>0=%v HeaderReceived=%d", p.SrvRead, p.SrvWrite, p.SrvIdle, p.HdrRecv)
+	if readArmed {
+		add("read-deadline-armed-at-handover", "the last read deadline the server set before the hijack handler started is non-zero ("+cfg+")")
+	}
+	if writeArmed {
+		add("write-deadline-armed-at-handover", "the last write deadline the server set before the hijack handler started is non-zero ("+cfg+")")
+	}
+	info["deadline_calls"] = len(dls)
+	info["ever_armed"] = everArmed
+
 	// 4. close rule
 	if p.Keep {
 		if serverCloses > 0 {
@@ -703,8 +788,9 @@ func sizeClass(n int) string {
 func TestC17(t *testing.T) {
 	r := mon.Start(t, "C17")
 	defer r.Finish()
-	r.Rule("case = ServeConn over a scripted conn: 0-2 ordinary requests, a hijacking request (GET/POST+body/HEAD, optional Upgrade/101, response body 0-20000 bytes, HijackSetNoResponse 1/3) and a PRNG tail of 0-65536 bytes (random/http-like/CRLF/text) plus an optional second part sent only after the handler's first write; ReduceMemoryUsage, KeepHijackedConns, Read/WriteBufferSize and the fragmentation plan (everything per Read, boundary exactly at the request end, k bytes into the tail, k bytes before the end, fixed n) vary; the hijack handler writes, reads to EOF with PRNG read sizes, writes, optionally closes; in keep mode it may stop early and the kept conn is read to EOF afterwards. distinct = (options, method, fragmentation mode, tail size class, how many tail bytes were already consumed from the conn at hand-over: none/part/all, second part, close variants); non-trivial = tail non-empty")
+	r.Rule("case = ServeConn over a scripted conn: 0-2 ordinary requests, a hijacking request (GET/POST+body/HEAD, optional Upgrade/101, response body 0-20000 bytes, HijackSetNoResponse 1/3) and a PRNG tail of 0-65536 bytes (random/http-like/CRLF/text) plus an optional second part sent only after the handler's first write; ReduceMemoryUsage, KeepHijackedConns, Read/WriteBufferSize, Server.ReadTimeout/WriteTimeout/IdleTimeout zero or not, HeaderReceived absent or returning per-request Read/WriteTimeout, and the fragmentation plan (everything per Read, boundary exactly at the request end, k bytes into the tail, k bytes before the end, fixed n) vary; the hijack handler writes, reads to EOF with PRNG read sizes, writes, optionally closes; in keep mode it may stop early and the kept conn is read to EOF afterwards. distinct = (options, method, fragmentation mode, tail size class, how many tail bytes were already consumed from the conn at hand-over: none/part/all, second part, close variants); non-trivial = tail non-empty")
 	r.Assume("h1 reference decides the request boundary and response framing; goroutine ids taken from runtime.Stack attribute conn operations; 'the server is done' = the goroutine that ran the hijack handler no longer exists")
+	r.Assume("deadlines are observed, not waited for: every Set*Deadline call on the conn is logged; at the start of the hijack handler the last read and the last write deadline set by the server must be zero (or never set) and no deadline call may follow; the handler itself sets none")
 	r.Assume("requests with 'Connection: close' (documented: hijack handler skipped) are executed but not judged (events connclose_*)")
 	n := r.N(8000, 60000)
 	mon.Parallel(n, 0, func(i int) {
@@ -734,9 +820,15 @@ func TestC17(t *testing.T) {
 		case buffered > 0:
 			bclass = "part"
 		}
-		class := fmt.Sprintf("rmu=%v keep=%v noresp=%v m=%s up=%v pre=%d frag=%s tail=%s buf=%s t2=%v hc=%v kt=%v rb=%d", p.RMU, p.Keep, p.NoResp, p.Method, p.Upgrade, p.Pre, p.FragMode, sizeClass(p.TailLen), bclass, info["tail2"], p.HandlerClose, p.KeepTail, p.ReadBuf)
+		class := fmt.Sprintf("rmu=%v keep=%v noresp=%v m=%s up=%v pre=%d frag=%s tail=%s buf=%s t2=%v hc=%v kt=%v rb=%d to=%v%v%v/%d", p.RMU, p.Keep, p.NoResp, p.Method, p.Upgrade, p.Pre, p.FragMode, sizeClass(p.TailLen), bclass, info["tail2"], p.HandlerClose, p.KeepTail, p.ReadBuf, p.SrvRead, p.SrvWrite, p.SrvIdle, p.HdrRecv)
 		r.Case(class, p.TailLen > 0)
 		r.Event("handovers_checked", 1)
+		if c, ok := info["deadline_calls"].(int); ok {
+			r.Event("deadline_calls_recorded", c)
+		}
+		if info["ever_armed"] == true {
+			r.Event("handovers_after_armed_deadline", 1)
+		}
 		if c, ok := info["compared"].(int); ok {
 			r.Event("tail_bytes_compared", c)
 		}
@@ -764,4 +856,5 @@ func TestC17(t *testing.T) {
 	r.Require("handovers_checked", n*9/10)
 	r.Require("handovers_with_buffered_tail", n/10)
 	r.Require("tail_bytes_compared", n*100)
+	r.Require("handovers_after_armed_deadline", n/4)
 }
